@@ -158,6 +158,10 @@ def gen_data(rnd, nmax=40):
     for name, kind in rnd.sample(pool, rnd.choice([0, 0, 1, 1, 2, 3])):
         if kind == 'float':
             cols[name] = [round(rnd.uniform(-50, 50), rnd.randint(0, 10)) for _ in range(n)]
+            if rnd.random() < 0.35:      # missing measurements (e.g. a quantity recorded on one branch only)
+                for k in range(n):
+                    if rnd.random() < 0.4:
+                        cols[name][k] = float('nan')
         elif kind == 'int':
             cols[name] = [rnd.randint(-5, 100) for _ in range(n)]
         elif kind == 'bool':
